@@ -473,6 +473,15 @@ def run_plan(plan):
                             # an atomic push undone after a racing writer got
                             # in: the undo itself lost a race
                             cls = "atomic-rollback-incomplete"
+                    elif overlap and _chain_ok(
+                            v0, vend, ok_cmds, maybe + [
+                                (o, w, p_) for (o, w, p_, s_) in ng_cmds
+                                if "atomic push failed" in s_]):
+                        # the chain only closes if a command of an atomic
+                        # push that was *reported failed* took effect for a
+                        # while: another pusher's update was conditioned on
+                        # the value it wrote before it was undone
+                        cls = "atomic-rollback-incomplete"
                     elif len(ok_cmds) >= 2 and len(
                             {o for (o, _, _) in ok_cmds}) < len(ok_cmds):
                         cls = "double-cas-success"
